@@ -34,7 +34,7 @@ def pygsti_label_from_statement(gate):
                 args.append(param)
         else:
             # quantum argument: a qubit
-            args.append(param.alias_index)
+            args.append(param.resolve_qubit()[1])
     return Label(args)
 
 
